@@ -6,6 +6,7 @@ from abc import ABC
 from abc import abstractmethod
 from typing import TYPE_CHECKING
 from typing import Generic
+from typing import Iterable
 from typing import List
 from typing import Sequence
 from typing import TypeVar
@@ -14,6 +15,7 @@ from jsonpath_rfc9535.function_extensions.filter_function import ExpressionType
 from jsonpath_rfc9535.function_extensions.filter_function import FilterFunction
 
 from .exceptions import JSONPathTypeError
+from .node import JSONPathNode
 from .node import JSONPathNodeList
 from .serialize import canonical_string
 
@@ -303,7 +305,15 @@ class RelativeFilterQuery(FilterQuery):
         # A query applied to a primitive value selects the value itself if the
         # query is just `@`, or nothing at all. Either way the result is a node
         # list, so existence tests and function arguments see a node, not a value.
-        return JSONPathNodeList(self.query.find(context.current))
+        #
+        # Start from the current value but keep the root of the query argument, so
+        # `$` in a nested filter still refers to the whole document.
+        nodes: Iterable[JSONPathNode] = [
+            JSONPathNode(value=context.current, location=(), root=context.root)
+        ]
+        for segment in self.query.segments:
+            nodes = segment.resolve(nodes)
+        return JSONPathNodeList(nodes)
 
 
 class RootFilterQuery(FilterQuery):
